@@ -334,39 +334,83 @@ func didStr(d did.DID) string {
 	return d.String()
 }
 
-func recOf(tk token.Token) TokRec {
+// rawRec holds what the accessors returned, before anything is formatted: the
+// sched scenario collects it inside an operation and renders it afterwards, so
+// that no harness-side formatting (fmt uses a sync.Pool, which the race
+// detector treats as synchronisation) runs between library calls of different
+// goroutines.
+type rawRec struct {
+	kind          string
+	iss, aud, sub did.DID
+	cmd           string
+	pol           policy.Policy
+	hasPol        bool
+	nonce         []byte
+	metaK, argsK  []string
+	metaV, argsV  []datamodel.Node
+	prf           []cid.Cid
+	nbf, exp, iat *time.Time
+	cause         *cid.Cid
+}
+
+func rawOf(tk token.Token) rawRec {
 	switch t := tk.(type) {
 	case *delegation.Token:
-		r := TokRec{Type: "dlg", Iss: didStr(t.Issuer()), Aud: didStr(t.Audience()), Sub: didStr(t.Subject()),
-			Cmd: t.Command().String(), Nonce: fmt.Sprintf("%x", t.Nonce()), Nbf: tsStr(t.NotBefore()), Exp: tsStr(t.Expiration()), Iat: "-", Cause: "-"}
-		pn, err := t.Policy().ToIPLD()
+		r := rawRec{kind: "dlg", iss: t.Issuer(), aud: t.Audience(), sub: t.Subject(), cmd: t.Command().String(), pol: t.Policy(), hasPol: true,
+			nonce: t.Nonce(), nbf: t.NotBefore(), exp: t.Expiration()}
+		for k, v := range t.Meta().Iter() {
+			r.metaK, r.metaV = append(r.metaK, k), append(r.metaV, v)
+		}
+		return r
+	case *invocation.Token:
+		r := rawRec{kind: "inv", iss: t.Issuer(), aud: t.Audience(), sub: t.Subject(), cmd: t.Command().String(),
+			nonce: t.Nonce(), exp: t.Expiration(), iat: t.InvokedAt(), cause: t.Cause(), prf: t.Proof()}
+		for k, v := range t.Meta().Iter() {
+			r.metaK, r.metaV = append(r.metaK, k), append(r.metaV, v)
+		}
+		for k, v := range t.Arguments().Iter() {
+			r.argsK, r.argsV = append(r.argsK, k), append(r.argsV, v)
+		}
+		return r
+	}
+	return rawRec{kind: "?"}
+}
+
+func (x rawRec) render() TokRec {
+	r := TokRec{Type: x.kind, Iss: didStr(x.iss), Aud: didStr(x.aud), Sub: didStr(x.sub), Cmd: x.cmd, Nonce: fmt.Sprintf("%x", x.nonce),
+		Nbf: tsStr(x.nbf), Exp: tsStr(x.exp), Iat: tsStr(x.iat), Cause: "-", Pol: "-"}
+	if x.kind == "dlg" {
+		r.Iat = "-"
+		pn, err := x.pol.ToIPLD()
 		if err != nil {
 			r.Pol = "ERR:" + err.Error()
 		} else {
 			r.Pol = nodeHex(pn)
 		}
-		for k, v := range t.Meta().Iter() {
-			r.Meta = append(r.Meta, k+"="+nodeHex(v))
-		}
-		return r
-	case *invocation.Token:
-		r := TokRec{Type: "inv", Iss: didStr(t.Issuer()), Aud: didStr(t.Audience()), Sub: didStr(t.Subject()),
-			Cmd: t.Command().String(), Nonce: fmt.Sprintf("%x", t.Nonce()), Nbf: "-", Exp: tsStr(t.Expiration()), Iat: tsStr(t.InvokedAt()), Cause: "-", Pol: "-"}
-		for k, v := range t.Meta().Iter() {
-			r.Meta = append(r.Meta, k+"="+nodeHex(v))
-		}
-		for k, v := range t.Arguments().Iter() {
-			r.Args = append(r.Args, k+"="+nodeHex(v))
-		}
-		for _, c := range t.Proof() {
-			r.Prf = append(r.Prf, c.String())
-		}
-		if t.Cause() != nil {
-			r.Cause = t.Cause().String()
-		}
-		return r
+	} else {
+		r.Nbf = "-"
 	}
-	return TokRec{Type: fmt.Sprintf("%T", tk)}
+	for i, k := range x.metaK {
+		r.Meta = append(r.Meta, k+"="+nodeHex(x.metaV[i]))
+	}
+	for i, k := range x.argsK {
+		r.Args = append(r.Args, k+"="+nodeHex(x.argsV[i]))
+	}
+	for _, c := range x.prf {
+		r.Prf = append(r.Prf, c.String())
+	}
+	if x.cause != nil {
+		r.Cause = x.cause.String()
+	}
+	return r
+}
+
+func recOf(tk token.Token) TokRec {
+	x := rawOf(tk)
+	if x.kind == "?" {
+		return TokRec{Type: fmt.Sprintf("%T", tk)}
+	}
+	return x.render()
 }
 
 func sortedCopy(xs []string) []string {
